@@ -120,9 +120,28 @@ pub fn run_c20(ctx: &Ctx, sink: &mut Sink) {
             emit(sink, *x, "boundary");
         }
     }
-    for x in [f64::NAN, f64::INFINITY, f64::NEG_INFINITY] {
+    // NaN with either sign bit and other payloads, the infinities
+    for x in [f64::NAN, -f64::NAN, f64::from_bits(0x7ff8_0000_0000_0001), f64::from_bits(0xfff0_0000_0000_0001), f64::from_bits(0x7ff4_0000_0000_0000), f64::INFINITY, f64::NEG_INFINITY] {
         if ctx.shard_i == 0 {
             emit(sink, x, "special");
+        }
+    }
+    // the same values as programs compute them (the sign bit of a computed NaN depends on the operation and the platform)
+    if ctx.shard_i == 0 {
+        for (src, expected) in [
+            ("format(\"{}\", 0 / 0)", "NaN"),
+            ("format(\"{}\", -(0 / 0))", "NaN"),
+            ("format(\"{}\", inf - inf)", "NaN"),
+            ("format(\"{}\", 0 * inf)", "NaN"),
+            ("format(\"{} {}\", inf, -inf)", "Infinity -Infinity"),
+            ("format(\"{}\", [0 / 0, -(0 / 0), -inf])", "[NaN, NaN, -Infinity]"),
+            ("format(\"{}\", {a: inf - inf})", "{a: NaN}"),
+        ] {
+            let got = sess.rout(&sess.eval(src));
+            sink.case(&format!("computed-special|{}", src), true);
+            if got != ROut::Ok(RVal::Str(expected.to_string())) {
+                sink.viol("special computed", "a computed NaN / infinity is not shown by name", json!({"program": src, "got": got.show(), "expected": expected}));
+            }
         }
     }
     let n = ctx.budget(600_000, 8_000_000);
